@@ -32,6 +32,7 @@ import (
 	"bufio"
 	"bytes"
 	"encoding/hex"
+	"errors"
 	"fmt"
 	"io"
 	"math/big"
@@ -42,6 +43,7 @@ import (
 	"runtime"
 	"runtime/debug"
 	"sort"
+	"strconv"
 	"strings"
 	"time"
 
@@ -267,6 +269,19 @@ func kfEval(line string) string {
 				return "none"
 			}
 			return "some " + kfAccountsStr(as)
+		case "importkeyserr":
+			// the reader delivers the first n bytes and then fails for good (an I/O error, not EOF):
+			// the import must end as it does at the end of input after those bytes
+			_, b := rd()
+			n, _ := strconv.Atoi(toks[2])
+			if n > len(b) {
+				n = len(b)
+			}
+			as, err := otr3.ImportKeys(io.MultiReader(bytes.NewReader(b[:n]), kfFailingReader{}))
+			if err != nil {
+				return "none"
+			}
+			return "some " + kfAccountsStr(as)
 		case "exportkeys":
 			return hx(kfExport(kfAccountsArg(toks[1:])))
 		case "roundtrip":
@@ -465,7 +480,7 @@ func (k *kfRun) finding(prop, key, desc, input string) {
 
 var kfEntry = map[string]string{
 	"sexpread": "sexp.ReadValue", "sexplist": "sexp.ReadList", "sexpitem": "sexp.ReadListItem", "sexpstr": "sexp.ReadString",
-	"sexpsym": "sexp.ReadSymbol", "sexpbig": "sexp.ReadBigNum", "bighex": "sexp.NewBigNum", "importkeys": "ImportKeys",
+	"sexpsym": "sexp.ReadSymbol", "sexpbig": "sexp.ReadBigNum", "bighex": "sexp.NewBigNum", "importkeys": "ImportKeys", "importkeyserr": "ImportKeys(failing reader)",
 	"exportkeys": "ExportKeysToFile", "roundtrip": "ImportKeys(ExportKeysToFile)", "keyimport": "DSAPrivateKey.Import",
 	"parsepriv": "ParsePrivateKey", "fingerprint": "DSAPublicKey.Fingerprint",
 }
@@ -850,6 +865,9 @@ func (k *kfRun) scenario() {
 			return
 		}
 		file := unhxGo(fileHex)
+		if len(file) > 0 {
+			k.op(fmt.Sprintf("importkeyserr %s %d", fileHex, g.r.Intn(len(file))), true)
+		}
 		k.op("importkeys "+fileHex, true)
 		k.op("keyimport "+fileHex, true)
 		for i := 0; i < 3; i++ {
@@ -1028,3 +1046,7 @@ func init() {
 		return g.dist
 	}
 }
+
+type kfFailingReader struct{}
+
+func (kfFailingReader) Read(p []byte) (int, error) { return 0, errors.New("input/output error") }
